@@ -86,7 +86,9 @@ def rule_rm(ctx):
     specs = [("cb0", "D", "V", "E", "ValueUpdate"), ("cb1", "D", None, None, "BaseEvent"), ("cb2", "X", "V", None, "StateUpdate"), ("cb3", "D", "V", "E", "ValueUpdate")]
     n = 0
     bad = False
-    for mask in itertools.product((False, True), repeat=6):
+    # the criteria are taken from cb0 and, in a second sweep, from cb3 - the *later* of two configurations with identical
+    # filters (two concurrent waits for the same thing): removal by uuid must take exactly that one
+    for tgt_idx, mask in [(t, m) for t in (0, 3) for m in itertools.product((False, True), repeat=6)]:
         n += 1
         holder = {}
 
@@ -96,7 +98,7 @@ def rule_rm(ctx):
             cbs[3].attrs["callback"] = cbs[0].attrs["callback"]
             c = make_client(p, cbs, it=it)
             it.client, it.cbs = c, cbs
-            tgt = cbs[0]
+            tgt = cbs[tgt_idx]
             kw = {}
             keys = ("uuid", "device", "vector", "element", "event_type", "callback")
             for k, on in zip(keys, mask):
@@ -113,7 +115,7 @@ def rule_rm(ctx):
                 continue
             left = [x.label for x in pa.interp.client.attrs["callbacks"].items]
             cbs = pa.interp.cbs
-            tgt = cbs[0]
+            tgt = cbs[tgt_idx]
             keys = ("uuid", "device", "vector", "element", "event_type", "callback")
             exp = []
             for cb in cbs:
@@ -127,7 +129,7 @@ def rule_rm(ctx):
                 if not match:
                     exp.append(cb.label)
             if left != exp:
-                ctx.violated("C16.RM", f.short, f"removal by criteria {dict(zip(keys, mask))} leaves {left}, expected {exp}", fi=f, text=f"rm:{mask}", witness=str(dict(zip(keys, mask))))
+                ctx.violated("C16.RM", f.short, f"removal by criteria {dict(zip(keys, mask))} taken from {tgt.label} leaves {left}, expected {exp}", fi=f, text=f"rm:{tgt_idx}:{mask}", witness=str(dict(zip(keys, mask))))
                 bad = True
     ctx.counters["C16.RM:criteria combinations"] = n
     if not bad:
@@ -229,7 +231,7 @@ def rule_registry(ctx):
                 if not ok:
                     bad = True
                     ctx.violated("C16.REGISTRY", fi.short, f"writes the callback registry ({hit}) outside onevent/rmonevent", fi=fi, node=node)
-    ctx.floor("C16.REGISTRY", "registry writes", n, 3)
+    ctx.floor("C16.REGISTRY", "registry writes", n, 2)
     te = p.cls("indi.client.client.BaseClient").find_method("trigger_event")
     loops = [x for x in ast.walk(te.node) if isinstance(x, ast.For)]
     live = len(loops) == 1 and ast.unparse(loops[0].iter) == "self.callbacks"
